@@ -146,7 +146,9 @@ func runC08(r *Run) {
 			types = append(types, chainSpec{Crit: c, Filters: f})
 		}
 	}
-	hmaps := []map[string]string{nil, {"x-tenant": "a"}, {"x-tenant": "ab"}, {"x-tenant": "b"}, {"X-Tenant": "a", "other": "a"}}
+	// header values as Envoy hands them over: a repeated header arrives joined with commas, values may carry spaces
+	hmaps := []map[string]string{nil, {"x-tenant": "a"}, {"x-tenant": "ab"}, {"x-tenant": "b"}, {"X-Tenant": "a", "other": "a"},
+		{"x-tenant": "b,a"}, {"x-tenant": "a,b"}, {"x-tenant": "b, a"}, {"x-tenant": " a"}, {"x-tenant": "a;b"}}
 	maxLen := 2
 	if r.thorough() {
 		maxLen = 3
